@@ -1,16 +1,21 @@
 #!/usr/bin/env python3
 """tools/mkmut.py <name> <file> <old> <new> [<file> <old> <new> ...] — write mutants/<name>.diff:
 a unified diff against /repo's current working tree replacing exactly one occurrence of <old> by
-<new> in each named file (paths relative to /repo)."""
-import sys, difflib
+<new> (several replacements in one file are combined; paths relative to /repo)."""
+import sys, difflib, warnings
+warnings.simplefilter('ignore')
 name = sys.argv[1]; args = sys.argv[2:]
-out = []
+files = {}
 for i in range(0, len(args), 3):
     f, old, new = args[i:i+3]
-    s = open('/repo/' + f).read()
+    if f not in files:
+        files[f] = [open('/repo/' + f).read()] * 2
     old = old.encode().decode('unicode_escape'); new = new.encode().decode('unicode_escape')
-    assert s.count(old) == 1, (f, old, s.count(old))
-    t = s.replace(old, new)
+    t = files[f][1]
+    assert t.count(old) == 1, (f, old, t.count(old))
+    files[f][1] = t.replace(old, new)
+out = []
+for f, (s, t) in files.items():
     out += list(difflib.unified_diff(s.splitlines(True), t.splitlines(True), 'a/' + f, 'b/' + f))
 open('/verif/mutants/%s.diff' % name, 'w').write(''.join(out))
 print('wrote mutants/%s.diff' % name)
